@@ -74,6 +74,9 @@ pub struct SchedReader<'a> {
     pub sched: Sched,
     step: usize,
     pub fail_at: Option<usize>,
+    /// which error the failing reads return: 0 a custom error carrying
+    /// INJECTED-R-k, 1 a raw OS error (EIO), 2 a bare ErrorKind (no payload)
+    pub fail_kind: u8,
     /// when set: once this many bytes were delivered, ONE read fails with
     /// ErrorKind::Interrupted; the next read continues normally
     pub interrupt_at: Option<usize>,
@@ -87,7 +90,7 @@ pub struct SchedReader<'a> {
 
 impl<'a> SchedReader<'a> {
     pub fn new(data: &'a [u8], sched: Sched) -> Self {
-        SchedReader { data, pos: 0, sched, step: 0, fail_at: None, interrupt_at: None, interrupted: false, reads: 0, eof_reads: 0, boundaries: vec![], log_boundaries: false }
+        SchedReader { data, pos: 0, sched, step: 0, fail_at: None, fail_kind: 0, interrupt_at: None, interrupted: false, reads: 0, eof_reads: 0, boundaries: vec![], log_boundaries: false }
     }
     pub fn failing(data: &'a [u8], sched: Sched, fail_at: usize) -> Self {
         let mut r = Self::new(data, sched);
@@ -98,6 +101,15 @@ impl<'a> SchedReader<'a> {
 
 pub fn injected_read_error(k: usize) -> io::Error {
     io::Error::new(io::ErrorKind::Other, format!("INJECTED-R-{}", k))
+}
+
+/// The error a failing reader of the given kind returns (see `fail_kind`).
+pub fn injected_read_error_kind(k: usize, kind: u8) -> io::Error {
+    match kind {
+        1 => io::Error::from_raw_os_error(libc::EIO),
+        2 => io::ErrorKind::TimedOut.into(),
+        _ => injected_read_error(k),
+    }
 }
 
 impl<'a> Read for SchedReader<'a> {
@@ -115,7 +127,7 @@ impl<'a> Read for SchedReader<'a> {
         let limit = self.fail_at.unwrap_or(usize::MAX).min(self.data.len());
         if let Some(k) = self.fail_at {
             if self.pos >= k {
-                return Err(injected_read_error(k));
+                return Err(injected_read_error_kind(k, self.fail_kind));
             }
         }
         let remaining = limit - self.pos;
